@@ -51,7 +51,9 @@ Print Assumptions C18_evqe_hypotheses_satisfiable.
 (* ---------------------------------------------------------------- solver-result codec (HEAD: head_flags) *)
 (* individuals and populations through the result codec (it delegates), population evaluation results, and complete
    solver results: eigenvalue None / real / complex, auxiliary values absent / list / dict (values None, real, complex;
-   keys str or int), eigenstate absent or a QuasiDistribution with shots and bound each None or a number, best
+   keys str or int), eigenstate absent or a QuasiDistribution with shots and bound each None or a number and with its bit
+   width (the length of the keys of binary_probabilities(); quasi_wf: outcomes >= 0 that fit into the width, width 0
+   exactly for the empty distribution - what qiskit's constructor establishes), best
    individual, circuit_evaluations, generations, history (None, empty or any list), initial-state circuit token.
    result_wf: complex parts are floats (they are, in Python), dict keys pairwise different, individuals valid. *)
 Theorem C18_result_roundtrip :
@@ -70,20 +72,31 @@ Print Assumptions C18_result_hypotheses_satisfiable.
 
 (* ---------------------------------------------------------------- solver-result codec: legacy variants refuted *)
 Theorem C18_generations_refuted :
-  exists r y, result_roundtrip (mkFlags true false) (of_solver_result r) = Ok y /\ y <> of_solver_result r.
+  exists r y, result_roundtrip (mkFlags true false false) (of_solver_result r) = Ok y /\ y <> of_solver_result r.
 Proof. exact generations_refuted. Qed.
 Print Assumptions C18_generations_refuted.
 
 Theorem C18_aux_refuted :
-  (exists r y, result_roundtrip (mkFlags false true) (of_solver_result r) = Ok y /\ y <> of_solver_result r
+  (exists r y, result_roundtrip (mkFlags false true false) (of_solver_result r) = Ok y /\ y <> of_solver_result r
                /\ exists l, r_aux r = AuxList l)
-  /\ (exists r y, result_roundtrip (mkFlags false true) (of_solver_result r) = Ok y /\ y <> of_solver_result r
+  /\ (exists r y, result_roundtrip (mkFlags false true false) (of_solver_result r) = Ok y /\ y <> of_solver_result r
                /\ exists l, r_aux r = AuxDict l).
 Proof. exact aux_refuted. Qed.
 Print Assumptions C18_aux_refuted.
 
+(* F-C18d (fix 110f6bc): without "quasidistribution_num_bits" the eigenstate {'010': 1.0} (outcome 2, width 3) comes back
+   with width 2: binary_probabilities() gives '10' *)
+Theorem C18_eigenstate_width_refuted :
+  quasi_binary_keys [(PInt 2, PNum (NFloat 1 0))] 3 = Ok ["010"%string]
+  /\ result_roundtrip (mkFlags false false true) (of_solver_result wR_width)
+     = Ok (of_solver_result (mkResult (SNum (NFloat (-1) (-1))) AuxNone
+                               (Some (mkQuasi [(2, NFloat 1 0)] (Some (NInt 1000)) None 2)) None None None None None))
+  /\ quasi_binary_keys [(PInt 2, PNum (NFloat 1 0))] 2 = Ok ["10"%string].
+Proof. exact eigenstate_width_refuted. Qed.
+Print Assumptions C18_eigenstate_width_refuted.
+
 Example C18_head_witnesses_roundtrip :
   forallb (fun r => result_eqb pyval_eqb (result_roundtrip head_flags (of_solver_result r)) (Ok (of_solver_result r)))
-          [wR_min; wR_aux; wR_auxd; wR_full] = true.
+          [wR_min; wR_aux; wR_auxd; wR_full; wR_width] = true.
 Proof. exact head_witnesses_roundtrip. Qed.
 Print Assumptions C18_head_witnesses_roundtrip.
